@@ -105,17 +105,25 @@ Proof.
   destruct (list_eq_dec string_dec (map to_lowercase (u_ids u)) (u_lower u)); congruence.
 Qed.
 
-(* every identifier that is listed for one unit only resolves to that unit *)
+(* no identifier is listed for two units (finite: all identifiers of the table) *)
+Lemma no_duplicate_identifiers_ok : forallb (fun i => negb (dup_listed i)) all_idents = true.
+Proof. vm_cast_no_check (eq_refl true). Qed.
+Theorem no_duplicate_identifiers : forall u i, In u all_units -> In i (u_ids u) -> dup_listed i = false.
+Proof.
+  intros u i Hu Hi. pose proof no_duplicate_identifiers_ok as H. rewrite forallb_forall in H.
+  apply negb_true_iff. apply H. unfold all_idents. apply in_flat_map. eauto.
+Qed.
+
+(* every listed identifier resolves to its unit *)
 Lemma every_identifier_resolves_ok :
-  forallb (fun u => forallb (fun i => dup_listed i || ures_unit_eqb (resolve_unit i) u) (u_ids u)) all_units = true.
+  forallb (fun u => forallb (fun i => ures_unit_eqb (resolve_unit i) u) (u_ids u)) all_units = true.
 Proof. vm_cast_no_check (eq_refl true). Qed.
 Theorem every_identifier_resolves : forall u i,
-  In u all_units -> In i (u_ids u) -> dup_listed i = false -> resolve_unit i = UOk u.
+  In u all_units -> In i (u_ids u) -> resolve_unit i = UOk u.
 Proof.
-  intros u i Hu Hi Hd. pose proof every_identifier_resolves_ok as H.
+  intros u i Hu Hi. pose proof every_identifier_resolves_ok as H.
   rewrite forallb_forall in H. specialize (H u Hu).
-  rewrite forallb_forall in H. specialize (H i Hi). apply orb_true_iff in H.
-  destruct H as [H|H]; [congruence|]. apply ures_unit_eqb_true. exact H.
+  rewrite forallb_forall in H. specialize (H i Hi). apply ures_unit_eqb_true. exact H.
 Qed.
 
 (* an identifier listed for two units is an error (ambiguity), not a guess; holds for every table *)
@@ -131,6 +139,23 @@ Proof.
   assert (I : In i (filter dup_listed all_idents)).
   { apply filter_In. split; auto. unfold all_idents. apply in_flat_map. eauto. }
   specialize (H i I). destruct (resolve_unit i) as [|[]]; congruence.
+Qed.
+
+(* two units of the table with the same identifier list are the same unit (so the self-conversion
+   short-circuit `from.identifiers == to.identifiers` fires exactly for a unit and itself) *)
+Lemma same_ids_same_unit_ok :
+  forallb (fun u => forallb (fun x => if list_eq_dec string_dec (u_ids u) (u_ids x)
+                                     then (if unit_eq_dec u x then true else false) else true)
+                            all_units) all_units = true.
+Proof. vm_cast_no_check (eq_refl true). Qed.
+Theorem same_ids_same_unit : forall u x,
+  In u all_units -> In x all_units -> u_ids u = u_ids x -> u = x.
+Proof.
+  intros u x Hu Hx E. pose proof same_ids_same_unit_ok as H.
+  rewrite forallb_forall in H. specialize (H u Hu).
+  rewrite forallb_forall in H. specialize (H x Hx).
+  destruct (list_eq_dec string_dec (u_ids u) (u_ids x)); [|contradiction].
+  destruct (unit_eq_dec u x); congruence.
 Qed.
 
 (* ------------------------------------------------------------------ case-insensitive resolution *)
@@ -214,7 +239,6 @@ Section ConvertStructureGen.
   Variable lower : string -> string.
   Let res (s : string) := resolve_in units s (lower s).
   Let cv := convert_with A units lower.
-  Let cvf := convert_fixed_with A units lower.
 
   Lemma convert_resolved_gen : forall v a b ua ub,
     res a = UOk ua -> res b = UOk ub -> cv v a b = convert_units A v ua ub.
@@ -237,10 +261,10 @@ Section ConvertStructureGen.
 
   Lemma samecat_gen : forall v a b ua ub,
     res a = UOk ua -> res b = UOk ub -> u_cat ua = u_cat ub ->
-    cv v a b = UOk (convert_from_base A ub (convert_to_base A ua v)).
+    cv v a b = UOk (if same_ids ua ub then v else through_base A v ua ub).
   Proof.
     intros. rewrite (convert_resolved_gen v a b ua ub); auto. unfold convert_units.
-    rewrite H1, String.eqb_refl. reflexivity.
+    rewrite H1, String.eqb_refl. simpl. destruct (same_ids ua ub); reflexivity.
   Qed.
 
   Lemma unresolved_gen : forall v a b e,
@@ -251,25 +275,15 @@ Section ConvertStructureGen.
     - rewrite Ha, Hb. reflexivity.
   Qed.
 
-  Lemma self_fixed_gen : forall v a b u, res a = UOk u -> res b = UOk u -> cvf v a b = UOk v.
+  Lemma self_gen : forall v a b u, res a = UOk u -> res b = UOk u -> cv v a b = UOk v.
   Proof.
-    intros. unfold cvf, convert_fixed_with. unfold res in *. rewrite H, H0.
-    unfold convert_units_fixed. rewrite String.eqb_refl. simpl. unfold same_ids.
+    intros. unfold cv, convert_with. unfold res in *. rewrite H, H0.
+    unfold convert_units. rewrite String.eqb_refl. simpl. unfold same_ids.
     destruct (list_eq_dec string_dec (u_ids u) (u_ids u)); congruence.
-  Qed.
-
-  Lemma fixed_elsewhere_gen : forall v a b ua ub,
-    res a = UOk ua -> res b = UOk ub -> u_ids ua <> u_ids ub -> cvf v a b = cv v a b.
-  Proof.
-    intros. unfold cvf, convert_fixed_with, cv, convert_with. unfold res in *.
-    rewrite H, H0. unfold convert_units_fixed, convert_units, same_ids.
-    destruct (list_eq_dec string_dec (u_ids ua) (u_ids ub)); [contradiction|]. reflexivity.
   Qed.
 End ConvertStructureGen.
 
 Lemma convert_eq A v a b : convert A v a b = convert_with A all_units to_lowercase v a b.
-Proof. reflexivity. Qed.
-Lemma convert_fixed_eq A v a b : convert_fixed A v a b = convert_fixed_with A all_units to_lowercase v a b.
 Proof. reflexivity. Qed.
 
 Section ConvertStructure.
@@ -297,7 +311,7 @@ Section ConvertStructure.
 
   Theorem same_category_converts : forall v a b ua ub,
     resolve_unit a = UOk ua -> resolve_unit b = UOk ub -> u_cat ua = u_cat ub ->
-    convert A v a b = UOk (convert_from_base A ub (convert_to_base A ua v)).
+    convert A v a b = UOk (if same_ids ua ub then v else through_base A v ua ub).
   Proof. intros v a b ua ub. rewrite !resolve_unit_eq, convert_eq. apply samecat_gen. Qed.
 
   (* an identifier that does not resolve makes convert fail with the same error: nothing is guessed *)
@@ -309,55 +323,46 @@ Section ConvertStructure.
     destruct H as [H | [[ua Ha] Hb]]; rewrite resolve_unit_eq in *; eauto.
   Qed.
 
-  (* the repaired convert (proposed fix): converting a unit to itself is the identity, bit for bit *)
-  Theorem self_identity_fixed : forall v a b u,
-    resolve_unit a = UOk u -> resolve_unit b = UOk u -> convert_fixed A v a b = UOk v.
-  Proof. intros v a b u. rewrite !resolve_unit_eq, convert_fixed_eq. apply self_fixed_gen. Qed.
-
-  (* ... and it changes nothing else *)
-  Theorem fixed_agrees_elsewhere : forall v a b ua ub,
-    resolve_unit a = UOk ua -> resolve_unit b = UOk ub -> u_ids ua <> u_ids ub ->
-    convert_fixed A v a b = convert A v a b.
-  Proof.
-    intros v a b ua ub. rewrite !resolve_unit_eq, convert_fixed_eq, convert_eq. apply fixed_elsewhere_gen.
-  Qed.
+  (* converting a unit to itself is the identity, in every arithmetic (binary64: bit for bit) *)
+  Theorem self_identity : forall v a b u,
+    resolve_unit a = UOk u -> resolve_unit b = UOk u -> convert A v a b = UOk v.
+  Proof. intros v a b u. rewrite !resolve_unit_eq, convert_eq. apply self_gen. Qed.
 End ConvertStructure.
 
 (* the batched form used by the correspondence stream is convert, magnitude by magnitude *)
-Lemma convert_many_spec A fixed vs a b :
-  convert_many A fixed vs a b =
-  map (fun v => if fixed then convert_fixed A v a b else convert A v a b) vs.
+Lemma convert_many_spec A vs a b :
+  convert_many A vs a b = map (fun v => convert A v a b) vs.
 Proof.
   unfold convert_many. apply eq_sym.
-  erewrite map_ext; [|intros v; rewrite convert_fixed_eq, convert_eq; reflexivity].
-  unfold convert_fixed_with, convert_with. rewrite <- !resolve_unit_eq.
-  destruct (resolve_unit a) as [f|e].
-  - destruct (resolve_unit b) as [t|e]; destruct fixed; reflexivity.
-  - destruct fixed; reflexivity.
+  erewrite map_ext; [|intros v; rewrite convert_eq; reflexivity].
+  unfold convert_with. rewrite <- !resolve_unit_eq.
+  destruct (resolve_unit a) as [f|e]; [|reflexivity].
+  destruct (resolve_unit b) as [t|e]; reflexivity.
 Qed.
 
 Theorem aliases_same_unit : forall A u i j (v : T A) x,
-  In u all_units -> In i (u_ids u) -> In j (u_ids u) -> dup_listed i = false -> dup_listed j = false ->
+  In u all_units -> In i (u_ids u) -> In j (u_ids u) ->
   resolve_unit i = resolve_unit j /\
   convert A v i x = convert A v j x /\ convert A v x i = convert A v x j.
 Proof.
-  intros A u i j v x Hu Hi Hj Di Dj.
-  pose proof (every_identifier_resolves u i Hu Hi Di) as Ri.
-  pose proof (every_identifier_resolves u j Hu Hj Dj) as Rj.
+  intros A u i j v x Hu Hi Hj.
+  pose proof (every_identifier_resolves u i Hu Hi) as Ri.
+  pose proof (every_identifier_resolves u j Hu Hj) as Rj.
   split; [congruence|]. exact (aliases_behave_identically A i j u Ri Rj v x).
 Qed.
 
 Theorem builtin_is_convert : forall v a b, builtin_convert (ANum v) (AStr a) (AStr b) = convert fl v a b.
 Proof. reflexivity. Qed.
 
-(* ------------------------------------------------------------------ float level: self-conversion *)
-(* the code computes v * c / c (no short-circuit for from == to): not the identity in binary64.
+(* ------------------------------------------------------------------ float level: why the short-circuit *)
+(* going through the base unit computes v * c / c, which is not the identity in binary64: without the
+   short-circuit of fix e6d26e9 self-conversion would not be the identity (this was finding F28).
    Table-independent witness: a linear unit with coefficient 8e15 (petabytes), v = 123456.789 *)
 Definition witness_unit : unit :=
   Unit 0 "InformationStorage" ["petabytes"] ["petabytes"] (Linear (Lit 0x433c6bf526340000 8 15)).
-Lemma self_identity_float_refuted :
+Lemma through_base_not_identity :
   exists u v, literal_ok (match u_conv u with Linear c => c | _ => lit_5 end) = true /\
-              convert_units fl v u u <> UOk v.
+              through_base fl v u u <> v.
 Proof.
   exists witness_unit, (num_of_bits 0x40fe240c9fbe76c9). split; [vm_compute; reflexivity|].
   vm_compute. discriminate.
@@ -544,13 +549,17 @@ Proof. rewrite resolve_unit_eq. apply resolve_in_In. Qed.
 Lemma resolved_wfQ s u : resolve_unit s = UOk u -> wfQ u.
 Proof. intros H. apply unit_wf_wfQ, table_wellformed, (resolve_unit_In s u H). Qed.
 
-(* converting a unit to itself is the identity, exactly *)
-Theorem self_identity_Q : forall a b u v,
-  resolve_unit a = UOk u -> resolve_unit b = UOk u ->
-  exists r, convert qa v a b = UOk r /\ qx_eq r v.
+(* what convert computes once resolved, up to exact equality: the value carried through the base unit
+   (the short-circuit returns v itself, which is exactly that for a well-formed unit) *)
+Lemma convert_Q_through_base : forall a b ua ub v,
+  resolve_unit a = UOk ua -> resolve_unit b = UOk ub -> u_cat ua = u_cat ub ->
+  exists r, convert qa v a b = UOk r /\ qx_eq r (through_base qa v ua ub).
 Proof.
-  intros a b u v Ha Hb. rewrite (same_category_converts qa v a b u u Ha Hb eq_refl).
-  eexists. split; [reflexivity|]. apply from_to. exact (resolved_wfQ a u Ha).
+  intros a b ua ub v Ha Hb Hc. rewrite (same_category_converts qa v a b ua ub Ha Hb Hc).
+  eexists. split; [reflexivity|]. unfold same_ids.
+  destruct (list_eq_dec string_dec (u_ids ua) (u_ids ub)) as [E|E]; [|apply qx_eq_refl].
+  assert (ua = ub) by (apply same_ids_same_unit; eauto using resolve_unit_In). subst ub.
+  apply qx_eq_sym. apply from_to. exact (resolved_wfQ a ua Ha).
 Qed.
 
 (* converting there and back returns the original value, exactly *)
@@ -559,13 +568,15 @@ Theorem there_and_back_Q : forall a b ua ub v,
   exists r1 r2, convert qa v a b = UOk r1 /\ convert qa r1 b a = UOk r2 /\ qx_eq r2 v.
 Proof.
   intros a b ua ub v Ha Hb Hc.
-  exists (convert_from_base qa ub (convert_to_base qa ua v)).
-  exists (convert_from_base qa ua (convert_to_base qa ub (convert_from_base qa ub (convert_to_base qa ua v)))).
-  split; [exact (same_category_converts qa v a b ua ub Ha Hb Hc)|].
-  split; [exact (same_category_converts qa _ b a ub ua Hb Ha (eq_sym Hc))|].
+  destruct (convert_Q_through_base a b ua ub v Ha Hb Hc) as [r1 [E1 Q1]].
+  destruct (convert_Q_through_base b a ub ua r1 Hb Ha (eq_sym Hc)) as [r2 [E2 Q2]].
+  exists r1, r2. split; auto. split; auto.
+  eapply qx_eq_trans; [exact Q2|]. unfold through_base.
   eapply qx_eq_trans.
-  - apply from_base_proper. apply to_from. exact (resolved_wfQ b ub Hb).
-  - apply from_to. exact (resolved_wfQ a ua Ha).
+  - apply from_base_proper. apply to_base_proper. exact Q1.
+  - unfold through_base. eapply qx_eq_trans.
+    + apply from_base_proper. apply to_from. exact (resolved_wfQ b ub Hb).
+    + apply from_to. exact (resolved_wfQ a ua Ha).
 Qed.
 
 (* converting A to B to C equals converting A to C, exactly *)
@@ -576,11 +587,12 @@ Theorem composition_Q : forall a b c ua ub uc v,
                    convert qa v a c = UOk r3 /\ qx_eq r2 r3.
 Proof.
   intros a b c ua ub uc v Ha Hb Hc Hab Hbc.
-  exists (convert_from_base qa ub (convert_to_base qa ua v)).
-  exists (convert_from_base qa uc (convert_to_base qa ub (convert_from_base qa ub (convert_to_base qa ua v)))).
-  exists (convert_from_base qa uc (convert_to_base qa ua v)).
-  split; [exact (same_category_converts qa v a b ua ub Ha Hb Hab)|].
-  split; [exact (same_category_converts qa _ b c ub uc Hb Hc Hbc)|].
-  split; [exact (same_category_converts qa v a c ua uc Ha Hc (eq_trans Hab Hbc))|].
-  apply from_base_proper. apply to_from. exact (resolved_wfQ b ub Hb).
+  destruct (convert_Q_through_base a b ua ub v Ha Hb Hab) as [r1 [E1 Q1]].
+  destruct (convert_Q_through_base b c ub uc r1 Hb Hc Hbc) as [r2 [E2 Q2]].
+  destruct (convert_Q_through_base a c ua uc v Ha Hc (eq_trans Hab Hbc)) as [r3 [E3 Q3]].
+  exists r1, r2, r3. repeat (split; auto).
+  eapply qx_eq_trans; [exact Q2|]. eapply qx_eq_trans; [|apply qx_eq_sym; exact Q3].
+  unfold through_base. eapply qx_eq_trans.
+  - apply from_base_proper. apply to_base_proper. exact Q1.
+  - unfold through_base. apply from_base_proper. apply to_from. exact (resolved_wfQ b ub Hb).
 Qed.
